@@ -329,6 +329,67 @@ func streamEq(o *Out, r *rand.Rand, n int, thorough bool) {
 			}
 		}
 	}
+	// nil equals only nil: a pointer that points somewhere - also at a variable holding nil, at an unset interface - is not nil
+	{
+		vars := func() map[string]interface{} {
+			i5 := int64(5)
+			var e error
+			return map[string]interface{}{"pi": &i5, "pn": (*int64)(nil), "pv": new(interface{}), "pe": &e, "nilvar": nil, "nm": map[string]interface{}(nil), "ns": []interface{}(nil)}
+		}
+		isNilOp := map[string]bool{"nil": true, "pn": true, "[pn][0]": true, "nilvar": true, "nm": true, "ns": true, "pi": false, "pv": false, "pe": false, "&nilvar": false, "[&nilvar][0]": false, "[pv][0]": false, "&pn": false, "0": false, "\"\"": false, "false": false, "[]": false, "{}": false}
+		var names []string
+		for k := range isNilOp {
+			names = append(names, k)
+		}
+		sort.Strings(names)
+		for _, l := range names {
+			for _, form := range []string{l + " == nil", "nil == " + l, "!(" + l + " != nil)", l + " in [nil]", "nil in [" + l + "]", "switch " + l + " {\ncase nil:\ntrue\ndefault:\nfalse\n}", "switch nil {\ncase " + l + ":\ntrue\ndefault:\nfalse\n}"} {
+				out := runScript(form, vars(), nil)
+				o.Sum.Evaluations++
+				o.Sum.Hist["nil-only-nil"]++
+				b, ok := asBool(out)
+				if !ok || b != isNilOp[l] {
+					o.Fail(Failure{Oracle: "nil-equals-only-nil", Key: "eq-nil-only-nil", Input: form + "  (pi -> int64 5, pn = nil *int64, pv = new(interface{}), pe = &(error nil), nilvar = nil, nm / ns = nil map / slice)",
+						Detail: fmt.Sprintf("expected %v, the script says %v", isNilOp[l], out.answer(vals.Encode))})
+				}
+			}
+		}
+	}
+	// Go arrays and slices a host binds, against each other and against lists: one answer in every form and in both orders
+	{
+		seqOps := []string{"arr3", "arr3b", "arr2", "sl3", "sl4", "sl2", "[1, 2, 3]", "[1, 2]", "sarr", "ssl", "barr", "bsl"}
+		for _, l := range seqOps {
+			for _, rr := range seqOps {
+				vars := func() map[string]interface{} {
+					return map[string]interface{}{"arr3": [3]int64{1, 2, 3}, "arr3b": [3]int64{1, 2, 3}, "arr2": [2]int64{1, 2}, "sl3": []int64{1, 2, 3}, "sl4": []int64{1, 2, 3, 4}, "sl2": []int64{1, 2},
+						"sarr": [2]string{"a", "b"}, "ssl": []string{"a", "b", "c"}, "barr": [2]byte{1, 2}, "bsl": []byte{1, 2, 3}}
+				}
+				var answers []string
+				bad := false
+				for _, form := range []string{l + " == " + rr, rr + " == " + l, "!(" + l + " != " + rr + ")", "!(" + rr + " != " + l + ")", l + " in [" + rr + "]", rr + " in [" + l + "]",
+					"switch " + l + " {\ncase " + rr + ":\ntrue\ndefault:\nfalse\n}", "switch " + rr + " {\ncase " + l + ":\ntrue\ndefault:\nfalse\n}"} {
+					out := runScript(form, vars(), nil)
+					o.Sum.Evaluations++
+					o.Sum.Hist["array-slice-forms"]++
+					b, ok := asBool(out)
+					if !ok {
+						bad = true
+					}
+					answers = append(answers, fmt.Sprint(b))
+				}
+				same := true
+				for _, a := range answers {
+					if a != answers[0] {
+						same = false
+					}
+				}
+				if bad || !same {
+					o.Fail(Failure{Oracle: "eq-coherent", Key: "eq-array-slice-forms", Input: l + " == " + rr + "  (arr3 = arr3b = [3]int64{1,2,3}, arr2 = [2]int64{1,2}, sl3 = []int64{1,2,3}, sl4 = []int64{1,2,3,4}, sarr = [2]string{a,b}, ssl = []string{a,b,c}, barr = [2]byte{1,2}, bsl = []byte{1,2,3})",
+						Detail: fmt.Sprintf("a==b, b==a, !(a!=b), !(b!=a), a in [b], b in [a], switch a {case b}, switch b {case a} give %v", answers)})
+				}
+			}
+		}
+	}
 	// numbers of every Go kind a host can bind: equal exactly when Go's == on the common value says so, one answer in every form
 	hostNums := map[string]interface{}{"up5": uintptr(5), "up7": uintptr(7), "u8": uint8(5), "u64": uint64(5), "i8": int8(5), "i16": int16(7), "f32": float32(5), "i5": int64(5), "i7": int64(7)}
 	hostVal := map[string]float64{"up5": 5, "up7": 7, "u8": 5, "u64": 5, "i8": 5, "i16": 7, "f32": 5, "i5": 5, "i7": 7}
